@@ -603,3 +603,46 @@ func VerifC06_nested() {
 	vfAssert(inner == refB, "nested-render-is-its-own-document")
 	vfObserveStr("out", outA)
 }
+
+// VerifC06_retarget: the wrapper renders the table it holds now: after its Table was exchanged for
+// another one (of the same or another size) the document is that table's, as a fresh wrapper gives it.
+func VerifC06_retarget() {
+	t1, t2 := tabular.New(), tabular.New()
+	t1.AddHeaders("a1", "a2")
+	t1.AddRowItems("x", vfString("t", 1, vfASCIInoNUL))
+	t1.AddSeparator()
+	t1.AddRowItems("y")
+	t2.AddHeaders("b1")
+	t2.AddRowItems("other-1")
+	t2.AddRowItems("other-2", "wide")
+	if vfChoice("same-size", 2) == 1 {
+		t2.AddRowItems("other-3")
+	}
+	ht := Wrap(t1)
+	gen := vfChoice("generator", 2) == 1
+	var genLog []int
+	if gen {
+		ht.SetRowClassGenerator(func(rowNum int, ctx interface{}) template.HTMLAttr {
+			genLog = append(genLog, rowNum)
+			return template.HTMLAttr("k")
+		}, nil)
+	}
+	_, err1 := ht.Render()
+	ht.Table = t2
+	genLog = nil
+	out, err2 := ht.Render()
+	ref := Wrap(t2)
+	if gen {
+		ref.SetRowClassGenerator(func(rowNum int, ctx interface{}) template.HTMLAttr { return template.HTMLAttr("k") }, nil)
+	}
+	want, err3 := ref.Render()
+	vfAssert(vfAnd(err1 == nil, vfAnd(err2 == nil, err3 == nil)), "render-ok")
+	vfAssert(out == want, "retargeted-wrapper-renders-its-current-table")
+	if gen {
+		vfAssert(len(genLog) == 1+t2.NRows(), "generator-called-once-per-emitted-row")
+		for i := range genLog {
+			vfAssert(genLog[i] == i, "generator-row-numbers")
+		}
+	}
+	vfObserveStr("out", out)
+}
